@@ -60,8 +60,8 @@ CLAIMS = {
          "Thin structural claim, labelled as such: index key builders/parsers agree component-wise, every store operation of the index receives a key of the right kind (exact-key operations full keys, prefix deletes and scans separator-terminated prefixes, including builders derived by append), the parser's fixed width for number terms equals the encoder's output width, no index query fills a bounded channel before returning it, and every index query closes the channel it returns on every path of its producer goroutine. It decides none of the value-level content of the property (index answers = scan of live documents).",
          "Trusted: go/types, go/cfg.",
          "DESIGN.md §4 C09"),
- "C15": ("all-exits-non-nil dataflow (go/cfg), call-tree reachability, builder/parser shape comparison (go/types AST)",
-         "Decides for ALL inputs that every write entry point of the gripper (external table) driver refuses — returns a certainly non-nil error on every path — and never reaches the table-service client, and that the synthetic edge-id builder and parser agree on separator, arity and positions. Does not decide the row→vertex/edge synthesis or equivalence with the materialised graph.",
+ "C15": ("all-exits-non-nil dataflow (go/cfg), call-tree reachability, builder/parser shape comparison, early-exit analysis of every loop over the mapped table lists (go/types AST)",
+         "Decides for ALL inputs that every write entry point of the gripper (external table) driver refuses — returns a certainly non-nil error on every path — and never reaches the table-service client, and that the synthetic edge-id builder and parser agree on separator, arity and positions; (W3) every loop over the mapped graph's table lists (ordered vertex/edge sources, per-vertex edge tables) is left early only on cancellation, with an error, or by a point lookup returning a certainly non-nil element — a necessary condition of 'one vertex per row of every table'. Does not decide that each visited table is read completely, the row→vertex/edge synthesis or equivalence with the materialised graph.",
          "Trusted: go/types, go/cfg; static call resolution (no calls through function values on these paths).",
          "DESIGN.md §4 C15"),
  "C20": ("SSA taint/format-context analysis of SQL text (go/ssa value flow, default deny, lexical context from constant formats)",
